@@ -68,8 +68,39 @@ from .common import assume_doc  # noqa: E402
 assume_doc("LMDBSTUB", "BOUNDED: the LMDB query path runs against /verif/stubs/lmdb.py, an in-memory ordered map with the cursor operations the code uses "
            "(set_range, prev, key, put, delete, get) -- the real lmdb C library is not installed in this image; its byte-wise key order and "
            "cursor semantics are assumed to be those of the stand-in")
-assume_doc("ENUM", "BOUNDED, not proved: stores of at most 2 (quick) / 3 (thorough) events out of a fixed universe of 34 events and a fixed family of 303 "
+assume_doc("ENUM", "BOUNDED, not proved: stores of at most 2 (quick) / 3 (thorough) events out of a fixed universe of 36 events and a fixed family of 343 "
            "filters x limits {none,0,1,2} plus 120 two-filter REQs (the exact numbers of each run are under coverage.bounded); events are inserted through Index.write (LMDB) or DBStorage.add_event with the "
            "validators switched off (SQL); the SQL statement built by the real build_query is run with the stdlib sqlite3 module on the same file; "
-           "the NIP-01 oracle is written independently in bounded/query_enum.py; delegation (NIP-26) authors, id/author prefixes, search, "
-           "tag values containing NUL and replaceable-event histories are not in the universe")
+           "the NIP-01 oracle is written independently in bounded/query_enum.py; id/author prefixes, search, "
+           "replaceable-event histories are not in the universe")
+
+
+def roundtrip_check(prop):
+    """extra check for C04: stored row == accepted event, served frame == accepted event (bounded set of awkward events/sub ids)"""
+
+    def check(tier, seed):
+        t0 = time.time()
+        outdir = os.path.join(os.environ.get("PYVC_OUT_DIR", ROOT), "replays")
+        os.makedirs(outdir, exist_ok=True)
+        out = os.path.join(outdir, "%s_roundtrip.json" % prop)
+        env = dict(os.environ)
+        env["PYTHONPATH"] = ROOT
+        p = subprocess.run([sys.executable, os.path.join(ROOT, "bounded", "roundtrip_enum.py"), "--json", out], capture_output=True, text=True, env=env, timeout=600)
+        if p.returncode != 0 or not os.path.exists(out):
+            raise RuntimeError("roundtrip_enum failed: %s" % (p.stdout + p.stderr)[-1500:])
+        r = json.load(open(out))
+        res = {"name": "store-and-serve-roundtrip", "kind": "bounded stand-in (fixed set of events and subscription ids, real SQL storage and serializer)",
+               "status": "ok", "evaluations": r["cases"], "distinct": r["cases"], "known_lines": [], "exhaustive": True,
+               "rule": "one case per (event, path stored|live, subscription id) of a fixed list of %d events x %d ids chosen for JSON/SQL-sensitive characters; all distinct" % (r["events"], r["sub_ids"]),
+               "samples": r.get("samples", [])[:2], "seconds": round(time.time() - t0, 1)}
+        if r["failure_classes"]:
+            res["status"] = "violation"
+            res["failures"] = [{"kind": c["kind"], "count": c["count"], "example": c["example"]} for c in r["failure_classes"]]
+        return res
+
+    check.__name__ = "roundtrip_%s" % prop
+    return check
+
+
+assume_doc("RTRIP", "BOUNDED, not proved: 24 events (15 contents, 9 tag lists incl. integers) x 7 subscription ids; SQL backend over sqlite; validators "
+           "switched off; the LMDB record codec is not exercised (msgpack is not installed; the stand-in is not the real codec)")
